@@ -82,7 +82,8 @@ func drawC11(t *rapid.T) GCase {
 	if rapid.Bool().Draw(t, "names") {
 		spec.WithNames(t, s)
 	}
-	return GCase{Family: "decl-mix", Spec: s, Text: s.Render(spec.RenderOpts{})}
+	// declarations merged or split across %token lines at random
+	return GCase{Family: "decl-mix", Spec: s, Text: s.Render(spec.RenderOpts{Layout: spec.DrawLayout(t)})}
 }
 
 // checkCodes validates a code assignment: codes[i] is the code of terminal i.
